@@ -151,7 +151,8 @@ def faults_at(root, path):
         res.append(('retype', i))
     if isinstance(node, str):
         if path and path[-1] == '<class>':
-            for tag in KNOWN_TAGS + ['zzz']:
+            for tag in KNOWN_TAGS + ['zzz', '%', '%s', '100%', 'enum%', '{', '{0}', '{x}', '$x', '\\', '', ' enum', 'Enum',
+                                     'ENUM', 'enum ', 'a' * 300]:
                 if tag != node:
                     res.append(('set', tag))
         else:
